@@ -1,35 +1,35 @@
-(* C05 — Every operation returns a well-formed, correctly typed diagram; checked constructors accept exactly the documented data. (compose: Props/C01.v; functor/optic images: correspondence + deep wf checker)
+(* C05 — Every operation returns a well-formed, correctly typed diagram; checked constructors accept exactly the documented data.
    Property theorems only: each statement is spelled out and closed by [exact] of a lemma proved in Proofs/. *)
-From OHG Require Import Spec.Plain Proofs.C02Thm Proofs.C04Thm Proofs.C05Thm Proofs.C08Thm Proofs.C06Thm.
+From OHG Require Import Spec.Plain Proofs.C02Thm Proofs.C04Thm Proofs.C05Thm Proofs.C08Thm Proofs.C06Thm Proofs.C01Thm Proofs.C12Thm Proofs.C14bThm Proofs.C19bThm Proofs.C10Strict.
 
 Theorem C05_ff_new_iff : forall (t : list nat) (n : nat),
        (forall f : ff, ff_new t n = Some f <-> all_lt n t /\ f = {| table := t; target := n |}) /\
        (ff_new t n = None <-> ~ all_lt n t).
-Proof. exact C06Thm.C06_new. Qed.
+Proof. exact (@C06Thm.C06_new). Qed.
 
 Theorem C05_ic_new_iff : forall (V : Type) (Ov : VOps V) (s : ff) (v : V) (c : ic V),
        @ic_new V Ov s v = @Ok (option (ic V)) (@Some (ic V) c) <->
        c = {| ic_sources := s; ic_values := v |} /\
        @wf_ic V (@vlen V Ov) {| ic_sources := s; ic_values := v |}.
-Proof. exact C05Thm.C05_ic_new_iff. Qed.
+Proof. exact (@C05Thm.C05_ic_new_iff). Qed.
 
 Theorem C05_ic_from_semifinite_iff : forall (V : Type) (O0 : VOps V) (sizes : list nat) (v : V) (c : ic V),
        @ic_from_semifinite V O0 sizes v = @Ok (option (ic V)) (@Some (ic V) c) <->
        list_sum sizes = @vlen V O0 v /\
        c = {| ic_sources := {| table := sizes; target := @vlen V O0 v + 1 |}; ic_values := v |}.
-Proof. exact C08Thm.C08_from_semifinite_iff. Qed.
+Proof. exact (@C08Thm.C08_from_semifinite_iff). Qed.
 
 Theorem C05_ops_new_iff : forall (O A : Type) (x : list A) (a b : ic (list O)) (p : operations O A),
        ops_new x a b = Some p <->
        length x = ic_len a /\ length x = ic_len b /\ p = {| ops_x := x; ops_a := a; ops_b := b |}.
-Proof. exact C08Thm.C08_ops_new_iff. Qed.
+Proof. exact (@C08Thm.C08_ops_new_iff). Qed.
 
 Theorem C05_hg_new_iff : forall (O A : Type) (s t : icf) (w : list O) (x : list A) (H : hg O A),
        hg_new s t w x = inl H <->
        H = {| h_s := s; h_t := t; h_w := w; h_x := x |} /\
        ic_len s = length x /\
        ic_len t = length x /\ target (ic_values s) = length w /\ target (ic_values t) = length w.
-Proof. exact C05Thm.C05_hg_new_iff. Qed.
+Proof. exact (@C05Thm.C05_hg_new_iff). Qed.
 
 Theorem C05_hg_new_error : forall (O A : Type) (s t : icf) (w : list O) (x : list A) (e : invalid_hg),
        hg_new s t w x = inr e <->
@@ -42,7 +42,7 @@ Theorem C05_hg_new_error : forall (O A : Type) (s t : icf) (w : list O) (x : lis
        ic_len t = length x /\
        target (ic_values s) = length w /\
        target (ic_values t) <> length w /\ e = TargetsSet (target (ic_values t)) (length w).
-Proof. exact C05Thm.C05_hg_new_error. Qed.
+Proof. exact (@C05Thm.C05_hg_new_error). Qed.
 
 Theorem C05_ohg_new_iff : forall (O A : Type) (s t : ff) (H : hg O A) (f : ohg O A),
        ohg_new s t H = inl f <->
@@ -51,7 +51,7 @@ Theorem C05_ohg_new_iff : forall (O A : Type) (s t : ff) (H : hg O A) (f : ohg O
        ic_len (h_t H) = length (h_x H) /\
        target (ic_values (h_s H)) = length (h_w H) /\
        target (ic_values (h_t H)) = length (h_w H) /\ target s = length (h_w H) /\ target t = length (h_w H).
-Proof. exact C05Thm.C05_ohg_new_iff. Qed.
+Proof. exact (@C05Thm.C05_ohg_new_iff). Qed.
 
 Theorem C05_ohg_new_error : forall (O A : Type) (s t : ff) (H : hg O A) (e : invalid_ohg),
        ohg_new s t H = inr e <->
@@ -61,25 +61,25 @@ Theorem C05_ohg_new_error : forall (O A : Type) (s t : ff) (H : hg O A) (e : inv
        hg_validate H = inl H /\
        target s = length (h_w H) /\
        target t <> length (h_w H) /\ e = CospanTargetType (target t) (length (h_w H)).
-Proof. exact C05Thm.C05_ohg_new_error. Qed.
+Proof. exact (@C05Thm.C05_ohg_new_error). Qed.
 
 Theorem C05_source_target_total : forall (O A : Type) (f : ohg O A) (d : O),
        wf_ohg f ->
        ohg_source f = Ok (map (fun i : nat => nth i (h_w (o_h f)) d) (table (o_s f))) /\
        ohg_target f = Ok (map (fun i : nat => nth i (h_w (o_h f)) d) (table (o_t f))).
-Proof. exact C05Thm.C05_source_target_total. Qed.
+Proof. exact (@C05Thm.C05_source_target_total). Qed.
 
 Theorem C05_identity_wf_typed : forall (O A : Type) (w : list O),
        exists h : ohg O A,
          ohg_identity A w = Ok h /\
          wf_ohg h /\ src_type (abs h) = map Some w /\ tgt_type (abs h) = map Some w.
-Proof. exact C05Thm.C05_identity_wf_typed. Qed.
+Proof. exact (@C05Thm.C05_identity_wf_typed). Qed.
 
 Theorem C05_twist_wf_typed : forall (O A : Type) (a b : list O),
        exists h : ohg O A,
          ohg_twist A a b = Ok h /\
          wf_ohg h /\ src_type (abs h) = map Some (a ++ b) /\ tgt_type (abs h) = map Some (b ++ a).
-Proof. exact C05Thm.C05_twist_wf_typed. Qed.
+Proof. exact (@C05Thm.C05_twist_wf_typed). Qed.
 
 Theorem C05_spider_wf : forall (O A : Type) (s t : ff) (w : list O),
        wf_ff s ->
@@ -91,13 +91,13 @@ Theorem C05_spider_wf : forall (O A : Type) (s t : ff) (w : list O),
           wf_ohg h /\
           src_type (abs h) = map (nth_error w) (table s) /\ tgt_type (abs h) = map (nth_error w) (table t)) /\
        (forall h : ohg O A, ohg_spider A s t w = Some h -> wf_ohg h).
-Proof. exact C05Thm.C05_spider_wf. Qed.
+Proof. exact (@C05Thm.C05_spider_wf). Qed.
 
 Theorem C05_dagger_wf_typed : forall (O A : Type) (f : ohg O A),
        wf_ohg f ->
        wf_ohg (ohg_dagger f) /\
        src_type (abs (ohg_dagger f)) = tgt_type (abs f) /\ tgt_type (abs (ohg_dagger f)) = src_type (abs f).
-Proof. exact C05Thm.C05_dagger_wf_typed. Qed.
+Proof. exact (@C05Thm.C05_dagger_wf_typed). Qed.
 
 Theorem C05_tensor_wf_typed : forall (O A : Type) (f g : ohg O A),
        wf_ohg f ->
@@ -107,7 +107,7 @@ Theorem C05_tensor_wf_typed : forall (O A : Type) (f g : ohg O A),
          wf_ohg h /\
          src_type (abs h) = src_type (abs f) ++ src_type (abs g) /\
          tgt_type (abs h) = tgt_type (abs f) ++ tgt_type (abs g).
-Proof. exact C05Thm.C05_tensor_wf_typed. Qed.
+Proof. exact (@C05Thm.C05_tensor_wf_typed). Qed.
 
 Theorem C05_tensor_operations_wf_typed : forall (O A : Type) (p : operations O A),
        wf_ics (ops_a p) ->
@@ -128,7 +128,7 @@ Theorem C05_tensor_operations_wf_typed : forall (O A : Type) (p : operations O A
          tgt_type (abs h) = map Some (ic_values (ops_b p)) /\
          concat (decode_s (ops_a p)) = ic_values (ops_a p) /\
          concat (decode_s (ops_b p)) = ic_values (ops_b p).
-Proof. exact C05Thm.C05_tensor_operations_wf_typed. Qed.
+Proof. exact (@C05Thm.C05_tensor_operations_wf_typed). Qed.
 
 Theorem C05_singleton_wf_typed : forall (O0 A : Type) (x : A) (a b : list O0),
        exists h : ohg O0 A,
@@ -138,7 +138,140 @@ Theorem C05_singleton_wf_typed : forall (O0 A : Type) (x : A) (a b : list O0),
          p_edges (abs h) =
          [{| pe_lbl := x; pe_src := seq 0 (length a); pe_tgt := seq (length a) (length b) |}] /\
          src_type (abs h) = map Some a /\ tgt_type (abs h) = map Some b.
-Proof. exact C05Thm.C05_singleton_wf_typed. Qed.
+Proof. exact (@C05Thm.C05_singleton_wf_typed). Qed.
+
+Theorem C05_compose_wf : forall B : Backend,
+       BackendOK B ->
+       forall (O A : Type) (eqO : O -> O -> bool),
+       (forall x y : O, eqO x y = true <-> x = y) ->
+       forall f g : ohg O A,
+       wf_ohg f ->
+       wf_ohg g ->
+       tgt_type (abs f) = src_type (abs g) ->
+       exists h : ohg O A,
+         ohg_compose B eqO f g = Ok (Some h) /\ wf_ohg h /\ IsCompose (abs f) (abs g) (abs h).
+Proof. exact (@C01Thm.C01_compose_is_gluing). Qed.
+
+Theorem C05_compose_typed : forall B : Backend,
+       BackendOK B ->
+       forall (O A : Type) (eqO : O -> O -> bool),
+       (forall x y : O, eqO x y = true <-> x = y) ->
+       forall f g h : ohg O A,
+       wf_ohg f ->
+       wf_ohg g ->
+       ohg_compose B eqO f g = Ok (Some h) ->
+       src_type (abs h) = src_type (abs f) /\ tgt_type (abs h) = tgt_type (abs g).
+Proof. exact (@C01Thm.C01_compose_types). Qed.
+
+Theorem C05_functor_image_wf_typed : forall B : Backend,
+       BackendOK B ->
+       forall (O1 A1 O2 A2 : Type) (eqO2 : O2 -> O2 -> bool),
+       (forall x y : O2, eqO2 x y = true <-> x = y) ->
+       forall (F : sfunctor O1 A1 O2 A2) (f : ohg O1 A1) (fw : ic (list O2)) (fx : ohg O2 A2),
+       wf_ohg f ->
+       (forall ops : operations O1 A1, to_operations f = Ok ops -> sf_map_operations F ops = Ok fx) ->
+       sf_map_object F (h_w (o_h f)) = Ok fw ->
+       wf_ics fw ->
+       ic_len fw = length (h_w (o_h f)) ->
+       wf_ohg fx ->
+       fx_typed f fw fx ->
+       exists h : ohg O2 A2,
+         define_map_arrow B eqO2 F f = Ok h /\
+         wf_ohg h /\
+         src_type (abs h) = map (nth_error (ic_values fw)) (C12Lemmas.expand fw (table (o_s f))) /\
+         tgt_type (abs h) = map (nth_error (ic_values fw)) (C12Lemmas.expand fw (table (o_t f))) /\
+         IsSubst f fw fx (abs h).
+Proof. exact (@C12Thm.C12_define_map_arrow). Qed.
+
+Theorem C05_lax_functor_image_wf_typed : forall B : Backend,
+       BackendOK B ->
+       forall (O1 A1 O2 A2 : Type) (eqO1 : O1 -> O1 -> bool),
+       (forall x y : O1, eqO1 x y = true <-> x = y) ->
+       forall eqO2 : O2 -> O2 -> bool,
+       (forall x y : O2, eqO2 x y = true <-> x = y) ->
+       forall F : lfunctor O1 A1 O2 A2,
+       C19bLemmas.lf_contract F ->
+       forall f : lohg O1 A1,
+       C09Thm.lwf f ->
+       C10Lemmas.ladj_ok f ->
+       C09Thm.labels_consistent f ->
+       exists (a b : list O1) (g : lohg O2 A2) (sg : ohg O2 A2),
+         lohg_source f = Ok a /\
+         lohg_target f = Ok b /\
+         dyn_define_map_arrow F B eqO1 eqO2 f = Ok g /\
+         C09Thm.lwf g /\
+         C10Lemmas.ladj_ok g /\
+         pending g = [] /\
+         l_q (lo_h g) = ([], []) /\
+         lohg_source g = Ok (flat_map (lf_map_object F) a) /\
+         lohg_target g = Ok (flat_map (lf_map_object F) b) /\
+         lohg_to_strict B eqO2 g = Ok sg /\
+         wf_ohg sg /\
+         src_type (abs sg) = map Some (flat_map (lf_map_object F) a) /\
+         tgt_type (abs sg) = map Some (flat_map (lf_map_object F) b).
+Proof. exact (@C19bThm.C05_lax_functor_image_wf_typed). Qed.
+
+Theorem C05_optic_image_wf_typed : forall B : Backend,
+       BackendOK B ->
+       forall (O1 A1 O2 A2 : Type) (eqO2 : O2 -> O2 -> bool),
+       (forall x y : O2, eqO2 x y = true <-> x = y) ->
+       forall (P : optic O1 A1 O2 A2) (f : ohg O1 A1) (sA sB : list O1),
+       optic_contract P ->
+       wf_ohg f ->
+       src_type (abs f) = map Some sA ->
+       tgt_type (abs f) = map Some sB ->
+       exists (h : ohg O2 A2) (oa ob : ic (list O2)),
+         optic_map_arrow B eqO2 P f = Ok h /\
+         wf_ohg h /\
+         optic_map_object P sA = Ok oa /\
+         optic_map_object P sB = Ok ob /\
+         src_type (abs h) = map Some (ic_values oa) /\ tgt_type (abs h) = map Some (ic_values ob).
+Proof. exact (@C14bThm.C14_type). Qed.
+
+Theorem C05_adapted_optic_wf_typed : forall B : Backend,
+       BackendOK B ->
+       forall (O1 A1 O2 A2 : Type) (eqO2 : O2 -> O2 -> bool),
+       (forall x y : O2, eqO2 x y = true <-> x = y) ->
+       forall (P : optic O1 A1 O2 A2) (f : ohg O1 A1) (sA sB : list O1),
+       optic_contract P ->
+       wf_ohg f ->
+       src_type (abs f) = map Some sA ->
+       tgt_type (abs f) = map Some sB ->
+       exists (h d : ohg O2 A2) (fa fb ra rb : ic (list O2)),
+         optic_map_arrow B eqO2 P f = Ok h /\
+         optic_adapt B eqO2 P h sA sB = Ok d /\
+         sf_map_object (op_fwd P) sA = Ok fa /\
+         sf_map_object (op_fwd P) sB = Ok fb /\
+         sf_map_object (op_rev P) sA = Ok ra /\
+         sf_map_object (op_rev P) sB = Ok rb /\
+         wf_ohg h /\
+         wf_ohg d /\
+         src_type (abs d) = map Some (ic_values fa ++ ic_values rb) /\
+         tgt_type (abs d) = map Some (ic_values fb ++ ic_values ra).
+Proof. exact (@C14bThm.C14_adapted_type). Qed.
+
+Theorem C05_to_strict_wf : forall (O A : Type) (B : Backend),
+       BackendOK B ->
+       forall eqO : O -> O -> bool,
+       (forall x y : O, eqO x y = true <-> x = y) ->
+       forall g : lohg O A,
+       C09Thm.lwf g ->
+       C10Lemmas.ladj_ok g ->
+       C09Thm.labels_consistent g ->
+       exists s : ohg O A,
+         lohg_to_strict B eqO g = Ok s /\
+         wf_ohg s /\
+         (exists q : nat -> nat,
+            IsQuot (labs g) q (abs s) /\
+            (forall i j : nat, i < C09Thm.nn g -> j < C09Thm.nn g -> q i = q j <-> conn (pending g) i j)).
+Proof. exact (@C10Strict.C10_to_strict_spec). Qed.
+
+Theorem C05_from_strict_wf : forall (O A : Type) (f : ohg O A),
+       wf_ohg f ->
+       exists l : lohg O A,
+         lohg_from_strict f = Ok l /\
+         pending l = [] /\ l_q (lo_h l) = ([], []) /\ C09Thm.lwf l /\ C10Lemmas.ladj_ok l /\ labs l = abs f.
+Proof. exact (@C10Strict.C10_from_strict_spec). Qed.
 
 Print Assumptions C05_ff_new_iff.
 Print Assumptions C05_ic_new_iff.
@@ -156,3 +289,11 @@ Print Assumptions C05_dagger_wf_typed.
 Print Assumptions C05_tensor_wf_typed.
 Print Assumptions C05_tensor_operations_wf_typed.
 Print Assumptions C05_singleton_wf_typed.
+Print Assumptions C05_compose_wf.
+Print Assumptions C05_compose_typed.
+Print Assumptions C05_functor_image_wf_typed.
+Print Assumptions C05_lax_functor_image_wf_typed.
+Print Assumptions C05_optic_image_wf_typed.
+Print Assumptions C05_adapted_optic_wf_typed.
+Print Assumptions C05_to_strict_wf.
+Print Assumptions C05_from_strict_wf.
